@@ -19,7 +19,9 @@ class C01(Prop):
         "interrupted after the snapshot file was written (then killed) followed by deletions and a successful compaction - "
         "directed for every component that lies late in the snapshot file. Oracle: after every restart the node's dump "
         "(served configuration values with md5/type/description/history; every component's snapshot records; last "
-        "applied and last log index) equals that of the node that never stopped. non-trivial = >=3 requests and a dump"))]
+        "applied and last log index) equals that of the node that never stopped, and the ids a sequence request hands out "
+        "are the same on both. The Lean models of the namespace, sequence and table components predict node L's answers "
+        "and snapshot records (correspondence). non-trivial = >=3 requests and a dump"))]
     trusted_base = [
         "the dispatch tables are re-extracted from raftdata.rs by /verif/translate/translate.py (purpose-built recogniser "
         "of the three match expressions; an unknown shape is an error); components are arbitrary in the theorems",
